@@ -1,0 +1,10 @@
+//go:build verif
+
+package scanner
+
+// VerifCounters returns the scanner's four counters (certsProcessed,
+// precertsSeen, unparsableEntries, entriesWithNonFatalErrors).  To be called
+// after Scan has returned.
+func VerifCounters(s *Scanner) (certs, precerts, unparsable, nonFatal int64) {
+	return s.certsProcessed, s.precertsSeen, s.unparsableEntries, s.entriesWithNonFatalErrors
+}
